@@ -192,7 +192,7 @@ def _dy(lo, hi, den=4):
 def noise_case(draw):
     k = draw(st.sampled_from(["normal", "normal", "normal", "uniform", "uniform", "laplace", "laplace", "zero"]))
     case = {"sub": "noise", "factory": k, "positional": draw(st.booleans()),
-            "n": draw(st.sampled_from([N_LAW, N_LAW, N_LAW, 0, 1, 5, N_LAW, N_LAW, N_LAW, 0, 1, 5, 131072, 196608, 65536])),
+            "n": draw(st.sampled_from([N_LAW, N_LAW, N_LAW, 0, 1, 5, N_LAW, N_LAW, N_LAW, 0, 1, 5, 131072, 196608, 65536, 2097153])),
             "seed": draw(st.sampled_from([0, 1]) | st.integers(0, 2 ** 32 - 1)), "burn": draw(st.integers(1, 7)),
             "ptype": draw(st.sampled_from(["plain", "plain", "plain", "np_float64", "np_float32", "zero_d", "int32", "int64", "py_int"]))}
     if k == "normal":
